@@ -218,7 +218,7 @@ def judge_metric_init(j, points, init, random_state, return_inverse,
     M, Minv = unpack()
     w = np.linalg.eigvalsh((M + M.T) / 2)
     asym = np.abs(M - M.T).max()
-    j.check(mon + '.random-spd', asym <= 16 * EPS * np.abs(M).max() and
+    j.check(mon + '.random-spd', asym <= 1e-9 * np.abs(M).max() and
             w.min() > 0, {'lambda_min': w.min(), 'asym': asym})
     if isinstance(random_state, (int, np.integer)):
       ref = make_spd_matrix(d, random_state=np.random.RandomState(
